@@ -1,5 +1,5 @@
 """C02 -- primal output is a feasible, self-consistent worst-case instance."""
-from . import pepsolve, translate
+from . import pepsolve, translate, wrappers, c16
 
 LEVEL = "other"
 EXPLANATION = ("Lock-step leaf creation (index taken, counter incremented, object registered) and post-solve assignment of every registered leaf at its "
@@ -15,4 +15,7 @@ def run(ctx):
     translate.r_keykinds(ctx)
     pepsolve.r_obj(ctx)
     translate.r_evalshape(ctx)
+    c16.r_operand_access(ctx)
+    pepsolve.r_primalflow(ctx)
+    wrappers.r_lmienc(ctx)
     ctx.floor("decomposition consumers", ctx.analysed.get("decomposition consumers", 0), 4)
